@@ -3,6 +3,21 @@
 import json
 
 CLAIMED = {
+ "C07": dict(
+   text="Static lock-discipline and aliasing analysis of the livesim2 server: every write to server-lifetime state (including bytes that library objects keep aliasing) by request-serving code, and every access that may run in parallel with it, must hold the owning mutex; no handler-reachable source of non-determinism; every early-exit range over a server map is a reviewed instance; sync.Pool objects are not used after Put. Necessary conditions of purity and race-freedom for all histories and interleavings; byte equality of responses is not decided.",
+   note="Origin/alias analysis is field-based and type-directed (no points-to analysis available); library aliasing and mutators are the listed ones; VTA call graph; known findings: unsynchronised ingest-manager tables.",
+   technique="static analysis: must-lockset dataflow + origin/alias analysis over SSA, thread classes from the call graph",
+   ref="DESIGN.md §2 E2, §3 C07"),
+ "C19": dict(
+   text="Static lock-discipline analysis of the ingest receiver: every access to receiver/channel state that concurrently running code writes must hold the owning mutex; inserts into the channel and stream tables happen in the same critical section as the existence test; every lock is released on all exits; fields touched only by the per-channel goroutine are exclusive. Decides these necessary conditions for all interleavings; equivalence to a sequential order is not decided.",
+   note="Thread classes from the call graph (replicated HTTP handlers, one goroutine per channel object); origin analysis instead of points-to; known findings: channel fields written by handlers without the channel mutex.",
+   technique="static analysis: must-lockset dataflow over SSA + get-or-create typestate on shared maps",
+   ref="DESIGN.md §2 E2, §3 C19"),
+ "C20": dict(
+   text="Static lock-discipline analysis of the request limiter: all accesses to its mutable fields hold the mutex on every path (entry locksets from all call sites), count/compare/reset are one critical section (single acquisition site reachable from Inc), every lock is released on every exit. Decides these necessary conditions for all interleavings; the quota arithmetic and address handling are not decided.",
+   note="Trusts sync.Mutex semantics, go/ssa, VTA call graph; the limiter is reached only through the server object and the middleware closure.",
+   technique="static analysis: must-lockset dataflow over SSA + atomic-section rule",
+   ref="DESIGN.md §2 E2, §3 C20"),
  "C08": dict(
    text="Static fault-site analysis over all repository code reachable from the HTTP handlers and goroutine roots of both servers: every integer division, constant/direct index or slice bound, slice-to-array conversion, explicit panic, unchecked type assertion, dereference of a nil-tested pointer, request-sized loop cursor and handler-side channel operation whose faulting operand is request-controlled must be excluded by a dominating guard, interval/length fact, validated-field fact or call-site proof. Decides that structural clause for every input; does not decide message wording, timing, or faults inside library code.",
    note="Trusts go/types, go/ssa, VTA call graph; explicit data flow only; integer overflow not modelled except for the chunk-parser cursor; reviewed exceptions are listed in the evidence with their reasons.",
